@@ -74,6 +74,43 @@ class _NpProxy(types.ModuleType):
         return _real_np.empty(shape, dtype=dtype, **kw)
 
     @staticmethod
+    def _has_proxy(x):
+        if isinstance(x, (SymReal, SymInt, SymBool)):
+            return True
+        if isinstance(x, (list, tuple)):
+            return any(_NpProxy._has_proxy(y) for y in x)
+        if isinstance(x, _real_np.ndarray) and x.dtype == object:
+            return any(isinstance(y, (SymReal, SymInt, SymBool)) for y in x.flat)
+        return False
+
+    @staticmethod
+    def array(obj, dtype=None, **kw):
+        if (dtype is float or dtype is builtins.float) :
+            if _NpProxy._has_proxy(obj):
+                return _real_np.array(obj, dtype=object, **kw)
+            return _real_np.array(obj, dtype=builtins.float, **kw)
+        return _real_np.array(obj, dtype=dtype, **kw)
+
+    @staticmethod
+    def asarray(obj, dtype=None, **kw):
+        if (dtype is float or dtype is builtins.float):
+            if _NpProxy._has_proxy(obj):
+                return _real_np.asarray(obj, dtype=object, **kw)
+            return _real_np.asarray(obj, dtype=builtins.float, **kw)
+        return _real_np.asarray(obj, dtype=dtype, **kw)
+
+    @staticmethod
+    def isfinite(x):
+        if isinstance(x, (SymReal, SymInt)):
+            return True
+        if isinstance(x, _real_np.ndarray) and x.dtype == object:
+            out = _real_np.empty(x.shape, dtype=bool)
+            for idx, y in _real_np.ndenumerate(x):
+                out[idx] = True if isinstance(y, (SymReal, SymInt)) else bool(_real_np.isfinite(builtins.float(y)))
+            return out
+        return _real_np.isfinite(x)
+
+    @staticmethod
     def isnan(x):
         if isinstance(x, (SymReal, SymInt)):
             return False
@@ -213,6 +250,12 @@ def install(mode, solver="glpk"):
         for name, mod in list(_sys.modules.items()):
             if name.startswith("cobra.") and mod is not None and "float" not in vars(mod) and not name.startswith("cobra.io.sbml"):
                 _rebind(mod, "float", Float)
+        # numpy stand-in (object-dtype allocation for dtype=float when proxies are present) in every cobra module that
+        # binds numpy as `np`, for the same reason
+        for name, mod in list(_sys.modules.items()):
+            if name.startswith("cobra.") and mod is not None and vars(mod).get("np") is _real_np \
+                    and not name.startswith(("cobra.io.sbml", "cobra.sampling", "cobra.io.mat")):
+                _rebind(mod, "np", NP)
         import cobra.io.json
         import cobra.io.yaml
         _rebind(cobra.io.json, "json", TextStub("json"))
